@@ -1,6 +1,9 @@
 package clip
 
 import (
+	"encoding/json"
+	"github.com/tailscale/setec/types/api"
+	"sync/atomic"
 	"context"
 	"fmt"
 	"sort"
@@ -31,6 +34,16 @@ type WinnersCase struct {
 	Hangs   int      `json:"hangs"`   // the first Hangs requests hang until their owner is cancelled
 	AfterS  int      `json:"after_s"` // the owner is cancelled this many seconds after its request arrived
 	Stagger []int    `json:"stagger"` // caller i starts Stagger[i%len] ms after the previous one
+	// Moving: the service activates a further version of the name at every request it answers, so that
+	// successive answered flights for the one name fetch DIFFERENT versions (C15 sub-campaign).
+	Moving bool `json:"moving,omitempty"`
+}
+
+func movingVal(k int) string {
+	if k == 0 {
+		return xVal
+	}
+	return fmt.Sprintf("moved-%d", k)
 }
 
 func runC16Winners(t *testing.T, c WinnersCase) (v *h.Violation, info h.Info) {
@@ -77,6 +90,10 @@ func runC16WinnersBubble(c WinnersCase, info *h.Info, prop string) *h.Violation 
 		nth := len(owners)
 		owners = append(owners, id)
 		mu.Unlock()
+		if c.Moving && nth >= c.Hangs {
+			k := nth - c.Hangs
+			svc.Set("x", uint32(3+k), []byte(movingVal(k)))
+		}
 		if nth < c.Hangs {
 			go func() {
 				select {
@@ -110,7 +127,8 @@ func runC16WinnersBubble(c WinnersCase, info *h.Info, prop string) *h.Violation 
 				}()
 				switch entry {
 				case "updater":
-					u, err := setec.NewUpdater(ctxs[i], st, "x", func(b []byte) (string, error) { return string(b), nil })
+					r.builds = &atomic.Int32{}
+					u, err := setec.NewUpdater(ctxs[i], st, "x", func(b []byte) (string, error) { r.builds.Add(1); return string(b), nil })
 					if r.err = err; err == nil {
 						r.val = u.Get()
 						r.again = u.Get
@@ -170,14 +188,60 @@ func runC16WinnersBubble(c WinnersCase, info *h.Info, prop string) *h.Violation 
 		if r.err != nil {
 			return h.V("not-failed-by-anothers-cancellation", "caller %d (%s), whose context was never cancelled, failed: %v - after %d winner(s) %v had been cancelled one after the other and with the service ready to answer the next request; requests: %s", i, c.Entries[i], r.err, len(cancelled), owners, fmtReqs(reqs))
 		}
-		if r.val != xVal {
+		if c.Moving {
+			ok := false
+			for k := 0; k <= len(owners)-c.Hangs; k++ {
+				ok = ok || r.val == movingVal(k)
+			}
+			if !ok {
+				return h.V("working-handle", "caller %d got %q, which the service never served", i, r.val)
+			}
+		} else if r.val != xVal {
 			return h.V("working-handle", "caller %d got %q, the service serves %q", i, r.val, xVal)
+		}
+	}
+	if c.Moving && survivors > 0 {
+		// C15: whatever the successive flights installed, every updater now yields a value built from the
+		// newest installed bytes - the bytes a handle returns.
+		newest := string(st.Secret("x").Get())
+		answered := len(owners) - c.Hangs
+		info.Class(fmt.Sprintf("answered-flights-%d", answered))
+		info.NonTrivial = answered >= 2
+		if answered == 1 {
+			// one flight installed the secret once and nothing was installed afterwards: each updater
+			// built its value when it was created and has had no reason to build another
+			for i, r := range results {
+				if !cancelled[i] && r.err == nil && r.builds != nil && r.builds.Load() != 1 {
+					return h.V("rebuilt-only-after-an-install", "updater of caller %d was created by NewUpdater on a name the store had to look up; nothing has been installed since, yet after its first Get the builder has run %d times (want 1)", i, r.builds.Load())
+				}
+			}
+		}
+		for i, r := range results {
+			if cancelled[i] || r.again == nil || r.err != nil || c.Entries[i] != "updater" {
+				continue
+			}
+			if got := r.again(); got != newest {
+				return h.V("built-from-newest-installed", "updater of caller %d was created from the flight that fetched %q; a later flight for the same name then installed %q (the store's handles return it, %d answered requests in all) but Updater.Get still yields %q", i, r.val, newest, answered, got)
+			}
+		}
+		// ... and a poll that finds nothing newer does not change that
+		if err := st.Refresh(context.Background()); err != nil {
+			return h.V("harness", "Refresh: %v", err)
+		}
+		newest = string(st.Secret("x").Get())
+		for i, r := range results {
+			if cancelled[i] || r.again == nil || r.err != nil {
+				continue
+			}
+			if got := r.again(); got != newest {
+				return h.V("built-from-newest-installed", "after a poll that returned nil the store's handle yields %q but caller %d (%s) yields %q", newest, i, c.Entries[i], got)
+			}
 		}
 	}
 	if survivors > 0 {
 		// Every handle and updater the callers ended up with - whichever of the successive flights it came
 		// from - follows the next version the service activates.
-		svc.Set("x", 4, []byte("8"))
+		svc.Set("x", 400, []byte("8"))
 		if err := st.Refresh(context.Background()); err != nil {
 			return h.V("harness", "Refresh: %v", err)
 		}
@@ -190,8 +254,11 @@ func runC16WinnersBubble(c WinnersCase, info *h.Info, prop string) *h.Violation 
 				if prop == "C11" {
 					clause = "fresh-after-successful-poll"
 				}
-				return h.V(clause, "caller %d (%s) obtained its handle after %d winner(s) had given up (%d requests were answered in all); after the service activated version 4 and Refresh returned nil it still yields %q, want %q", i, c.Entries[i], len(cancelled), len(reqs)-len(cancelled), got, "8")
+				return h.V(clause, "caller %d (%s) obtained its handle after %d winner(s) had given up (%d requests were answered in all); after the service activated a new version and Refresh returned nil it still yields %q, want %q", i, c.Entries[i], len(cancelled), len(reqs)-len(cancelled), got, "8")
 			}
+		}
+		if c.Moving {
+			return nil
 		}
 		if len(reqs)-len(cancelled) >= 2 {
 			info.Class("several-answered-flights-for-one-name")
@@ -371,7 +438,180 @@ var c11lookups = &h.Campaign[WinnersCase]{
 	},
 }
 
-func init() { c16winners.Register(); c16lookupCache.Register(); c11lookups.Register() }
+// ---- C15: an updater created from one of several successive lookups of its name ---------------
+//
+// "updaters created while updates are in flight": the same scenarios, but the service activates a
+// further version at every request it answers, and most callers create updaters.  When several
+// flights for the one name are answered one after the other, each installs what it fetched; an
+// updater created from an earlier flight must still end up built from the newest installed bytes.
+var c15lookups = &h.Campaign[WinnersCase]{
+	Prop: "C15", Sub: "updaters-from-successive-lookups",
+	Rule: "rapid + testing/synctest: 3-8 callers (mostly NewUpdater, some LookupSecret) ask for one unknown name at once; the first 1-3 requests hang and their owners are cancelled, so the remaining callers are all released at the same moment and their retries form one or several successive flights; the service activates a further version at every request it answers; when all have returned, every updater must yield a value built from the bytes the store's handle returns (the newest installed), also after a poll that finds nothing newer, and after the next activation + Refresh; non-trivial = at least two answered flights for the name; distinct by scenario",
+	Quick: 1500, Thorough: 150000,
+	Gen: func(rt *rapid.T) WinnersCase {
+		return WinnersCase{
+			Entries: rapid.SliceOfN(rapid.SampledFrom([]string{"updater", "updater", "updater", "lookup"}), 3, 8).Draw(rt, "entries"),
+			Hangs:   rapid.IntRange(1, 3).Draw(rt, "hangs"),
+			AfterS:  rapid.SampledFrom([]int{1, 2}).Draw(rt, "after"),
+			Stagger: rapid.SliceOfN(rapid.SampledFrom([]int{0, 0, 1}), 1, 3).Draw(rt, "stagger"),
+			Moving:  true,
+		}
+	},
+	Run: func(t *testing.T, c WinnersCase) (v *h.Violation, info h.Info) {
+		synctest.Test(t, func(t *testing.T) { v = runC16WinnersBubble(c, &info, "C15") })
+		if v != nil && v.Clause != "built-from-newest-installed" && v.Clause != "rebuilt-only-after-an-install" && v.Clause != "polled-after-lookup" && v.Clause != "harness" {
+			v = nil // C16's to report
+		}
+		return
+	},
+}
+
+// ---- C16: a failed lookup leaves nothing behind ----------------------------------------------------
+//
+// "A failed lookup installs nothing and is reported to its caller without automatic retry" - and
+// "with lookups enabled an unknown name is fetched": the first lookup of a name fails (the service
+// reports an error, does not have the secret, refuses, times out, or its reply is cut short on the
+// way), then - immediately or some time later - the name is asked for again while the service is
+// healthy and has the secret.  The second caller must be served by a fresh request.
+
+type RetryCase struct {
+	FailKind string `json:"fail_kind"` // err | notfound | denied | reqtimeout | nettimeout | cut
+	CutAt    int    `json:"cut_at"`    // cut: the 200 reply carries only this many bytes of the JSON value (mod its length)
+	GapMs    int    `json:"gap_ms"`
+	Entry1   string `json:"entry1"` // lookup | updater | apply
+	Entry2   string `json:"entry2"`
+	Wire     bool   `json:"wire"` // through the real setec.Client
+}
+
+func runC16Retry(t *testing.T, c RetryCase) (v *h.Violation, info h.Info) {
+	synctest.Test(t, func(t *testing.T) {
+		svc := fake.NewSvc()
+		svc.Set("d", 1, []byte("dv"))
+		svc.Set("x", 3, []byte(xVal))
+		var client setec.StoreClient = svc
+		if c.FailKind == "cut" {
+			full, _ := json.Marshal(&api.SecretValue{Version: 3, Value: []byte(xVal)})
+			cut := full[:c.CutAt%len(full)]
+			first := true
+			client = svc.WireRaw(func(n int, name string) (int, []byte, bool) {
+				if name == "x" && first {
+					first = false
+					return 200, cut, true
+				}
+				return 0, nil, false
+			})
+			info.Class(fmt.Sprintf("reply-cut-after-%d-of-%d-bytes", len(cut), len(full)))
+		} else {
+			svc.SetScript("x", []fake.Beh{{Kind: c.FailKind}})
+			if c.Wire {
+				client = svc.Wire()
+				info.Class("through-the-real-client")
+			}
+		}
+		st, err := setec.NewStore(context.Background(), setec.StoreConfig{Client: client, Secrets: []string{"d"}, AllowLookup: true, PollInterval: -1, Logf: nolog})
+		if err != nil {
+			v = h.V("harness", "NewStore: %v", err)
+			return
+		}
+		defer st.Close()
+		ask := func(entry string) (val string, err error, pan any) {
+			defer func() { pan = recover() }()
+			switch entry {
+			case "updater":
+				u, e := setec.NewUpdater(context.Background(), st, "x", func(b []byte) (string, error) { return string(b), nil })
+				if e != nil {
+					return "", e, nil
+				}
+				return u.Get(), nil, nil
+			case "apply":
+				var tgt applyTarget
+				f, e := setec.ParseFields(&tgt, "")
+				if e != nil {
+					return "", e, nil
+				}
+				e = f.Apply(context.Background(), st)
+				return string(tgt.X), e, nil
+			}
+			hd, e := st.LookupSecret(context.Background(), "x")
+			if e != nil {
+				return "", e, nil
+			}
+			if hd == nil {
+				return "", nil, "LookupSecret returned a nil handle and a nil error"
+			}
+			return string(hd.Get()), nil, nil
+		}
+		l0 := svc.LogLen()
+		val, err, pan := ask(c.Entry1)
+		if pan != nil {
+			v = h.V("never-a-panic", "the first lookup (via %s, service failure %q) panicked: %v", c.Entry1, c.FailKind, pan)
+			return
+		}
+		if err == nil {
+			v = h.V("failed-lookup-reported", "the first request for the name failed (%s) yet the caller (via %s) was given %q and no error", c.FailKind, c.Entry1, val)
+			return
+		}
+		if n := svc.LogLen() - l0; n != 1 {
+			v = h.V("no-automatic-retry", "a lone caller whose request failed (%s) caused %d requests", c.FailKind, n)
+			return
+		}
+		if hd := st.Secret("x"); hd != nil {
+			v = h.V("failed-lookup-installs-nothing", "after the only lookup failed (%s: %v) the store knows the secret", c.FailKind, err)
+			return
+		}
+		time.Sleep(time.Duration(c.GapMs) * time.Millisecond)
+		l1 := svc.LogLen()
+		val, err, pan = ask(c.Entry2)
+		if pan != nil {
+			v = h.V("never-a-panic", "the lookup after a failed one panicked: %v", pan)
+			return
+		}
+		if err != nil || val != xVal {
+			v = h.V("unknown-name-is-fetched", "the first lookup failed (%s); %d ms later the service is healthy and has the secret, but a new lookup (via %s) yields %q, %v (requests sent for it: %d)", c.FailKind, c.GapMs, c.Entry2, val, err, svc.LogLen()-l1)
+			return
+		}
+		if n := svc.LogLen() - l1; n != 1 {
+			v = h.V("unknown-name-is-fetched", "the lookup after a failed one sent %d requests, want 1", n)
+			return
+		}
+		if hd := st.Secret("x"); hd == nil || string(hd.Get()) != xVal {
+			v = h.V("working-handle", "after the successful lookup Secret(name) is nil or yields something else")
+			return
+		}
+		info.NonTrivial = true
+		info.Class("second-lookup-after-" + c.FailKind)
+	})
+	return
+}
+
+var c16retry = &h.Campaign[RetryCase]{
+	Prop: "C16", Sub: "lookup-after-failure",
+	Rule: "rapid + testing/synctest: the first lookup of an unknown name (LookupSecret / NewUpdater / Fields.Apply) fails - the service errs, lacks the secret, refuses, the request times out, or (through the real setec.Client) the 200 reply is cut short at a generated byte - and must be reported, cause exactly one request and install nothing; 0 ms - 10 min later (virtual) the service is healthy and has the secret: a new lookup must be served by exactly one fresh request and yield a working handle; non-trivial = every completed case; distinct by scenario",
+	Quick: 600, Thorough: 60000,
+	Gen: func(rt *rapid.T) RetryCase {
+		return RetryCase{
+			FailKind: rapid.SampledFrom([]string{"err", "notfound", "notfound", "denied", "reqtimeout", "nettimeout", "cut", "cut"}).Draw(rt, "failkind"),
+			CutAt:    rapid.IntRange(0, 60).Draw(rt, "cutat"),
+			GapMs:    rapid.SampledFrom([]int{0, 1, 1000, 30000, 59000, 61000, 600000}).Draw(rt, "gap"),
+			Entry1:   rapid.SampledFrom([]string{"lookup", "lookup", "updater", "apply"}).Draw(rt, "entry1"),
+			Entry2:   rapid.SampledFrom([]string{"lookup", "lookup", "updater", "apply"}).Draw(rt, "entry2"),
+			Wire:     rapid.Bool().Draw(rt, "wire"),
+		}
+	},
+	Run: runC16Retry,
+}
+
+func TestC16LookupAfterFailure(t *testing.T) { c16retry.Check(t) }
+
+func init() {
+	c16retry.Register()
+	c16winners.Register()
+	c16lookupCache.Register()
+	c11lookups.Register()
+	c15lookups.Register()
+}
+
+func TestC15UpdatersFromSuccessiveLookups(t *testing.T) { c15lookups.Check(t) }
 
 func TestC11HandlesFromRepeatedLookups(t *testing.T) { c11lookups.Check(t) }
 
